@@ -625,6 +625,52 @@ func ruleMapConvention(c *Ctx) {
 			continue
 		}
 		info := fn.Pkg.TypesInfo
+		// a local that is defined once and never assigned again stands for its definition
+		defs := map[types.Object][]ast.Expr{}
+		ast.Inspect(fn.Decl.Body, func(n ast.Node) bool {
+			switch x := n.(type) {
+			case *ast.AssignStmt:
+				for i, l := range x.Lhs {
+					id, ok := l.(*ast.Ident)
+					if !ok {
+						continue
+					}
+					obj := info.Defs[id]
+					if obj == nil {
+						obj = info.Uses[id]
+					}
+					if obj == nil {
+						continue
+					}
+					if len(x.Lhs) == len(x.Rhs) {
+						defs[obj] = append(defs[obj], x.Rhs[i])
+					} else {
+						defs[obj] = append(defs[obj], nil)
+					}
+				}
+			case *ast.UnaryExpr:
+				if id, ok := x.X.(*ast.Ident); ok && x.Op == token.AND {
+					if obj := info.Uses[id]; obj != nil {
+						defs[obj] = append(defs[obj], nil)
+					}
+				}
+			}
+			return true
+		})
+		strOf := func(e ast.Expr) string {
+			for n := 0; n < 4; n++ {
+				id, ok := ast.Unparen(e).(*ast.Ident)
+				if !ok {
+					break
+				}
+				d := defs[info.Uses[id]]
+				if len(d) != 1 || d[0] == nil {
+					break
+				}
+				e = d[0]
+			}
+			return p.str(e)
+		}
 		// all Kind()==/!= reflect.Map comparisons: the type expressions tested
 		tested := map[string]bool{}
 		ast.Inspect(fn.Decl.Body, func(n ast.Node) bool {
@@ -642,7 +688,7 @@ func ruleMapConvention(c *Ctx) {
 					continue
 				}
 				if v, ok := constInt(info, pair[1]); ok && v == 21 { // reflect.Map
-					tested[p.str(sel.X)] = true
+					tested[strOf(sel.X)] = true
 				}
 			}
 			return true
@@ -656,7 +702,7 @@ func ruleMapConvention(c *Ctx) {
 			if !ok || sel.Sel.Name != "CodecForTypeRegistry" || len(call.Args) != 3 {
 				return true
 			}
-			texpr := p.str(call.Args[1])
+			texpr := strOf(call.Args[1])
 			okk, why := false, ""
 			switch {
 			case tested[texpr]:
